@@ -22,7 +22,7 @@ pub const ENTRY: Entry = Entry {
            each input). Per transition: only the setter's own bits change; per state: byte == MIPI table (B7 MY, B6 MX, B5 MV derived \
            from the C01 geometry, B4 bottom-to-top, B3 BGR, B2 right-to-left, B1..0 zero) of the last values, hence order \
            independence; the byte put on the bus by write_command equals fill_params_buf; and the 0x36 parameter actually \
-           sent by every built-in model's init and by every later set_orientation (also one that follows a set_orientation whose bus operation failed) is that encoding. Non-trivial = transitions that change the byte.",
+           sent by every built-in model's init and by every later set_orientation (after scroll / tearing settings; also one that follows a set_orientation whose bus operation failed) is that encoding. Non-trivial = transitions that change the byte.",
     assumptions: &["MY/MX/MV per orientation are derived from the geometric specification (spec.rs), not from the driver's table"],
     run,
 };
@@ -180,6 +180,15 @@ fn run(ctx: &Ctx) -> Part {
                 } else if !fixed && rig.ctl.madctl != spec(cfg.orient) {
                     bad = Some(format!("init sent MADCTL {:08b}, encoding of the inputs is {:08b}", rig.ctl.madctl, spec(cfg.orient)));
                 } else {
+                    // other settings first (scroll offset at / beyond the framebuffer height, scroll region, tearing
+                    // effect): state they leave behind must not leak into the address mode
+                    let fbh = cfg.fb().1;
+                    let pre = [Op::ScrollRegion(1, 2), Op::ScrollOffset(if cfg.orient % 2 == 0 { fbh } else { 65535 }), Op::Tearing(1 + cfg.refresh % 2)];
+                    for p in &pre {
+                        if !rig.apply(p).is_ok() {
+                            bad = Some(format!("{p:?} failed"));
+                        }
+                    }
                     // two rounds: every orientation after every other one (history independence)
                     'o: for o1 in 0..8u8 {
                         for o2 in [o1, (o1 + 3) % 8] {
@@ -258,6 +267,10 @@ pub fn replay_bus(case: &serde_json::Value) -> i32 {
     let cfg: Cfg = serde_json::from_value(case["cfg"].clone()).unwrap();
     let mut rig = Rig::new(&cfg);
     println!("init {:?}: MADCTL on the bus {:08b}", rig.init, rig.ctl.madctl);
+    let fbh = cfg.fb().1;
+    for p in [Op::ScrollRegion(1, 2), Op::ScrollOffset(if cfg.orient % 2 == 0 { fbh } else { 65535 }), Op::Tearing(1 + cfg.refresh % 2)] {
+        println!("{p:?} -> {:?}", rig.apply(&p));
+    }
     for o1 in 0..8u8 {
         for o2 in [o1, (o1 + 3) % 8] {
             let out = rig.apply(&Op::SetOrientation(o2));
